@@ -61,6 +61,9 @@ func gen(g *mon.Gen) {
 	for i := 0; i < g.Pick(12, 200); i++ {
 		g.Emit(&Case{Mask: i % 4, Seed: rng.Int63(), K: 0, Terminal: "shutdown-at-start"})
 	}
+	for i := 0; i < g.Pick(4, 40); i++ {
+		g.Emit(&Case{Mask: 0, Seed: rng.Int63(), K: 0, Terminal: "restart"})
+	}
 	per := g.Pick(6, 200)
 	for mask := 0; mask < 16; mask++ {
 		for i := 0; i < per; i++ {
@@ -268,6 +271,133 @@ func runAtStart(c *Case, r *mon.Rec, rng *rand.Rand) {
 	}
 }
 
+// runRestart: the same Server value serves twice. The first serve call ends by context cancellation while one request is
+// still in its handler; a second serve call (new listener) follows; then Shutdown. What the server knows about the
+// connection from the first serve call must survive the second one: Shutdown may return nil only after the reply owed to
+// that request has been written.
+func runRestart(c *Case, r *mon.Rec, rng *rand.Rand) {
+	dev := simdev.New(uint64(c.Seed), "srv")
+	release := make(chan struct{})
+	started := make(chan struct{}, 1)
+	devH := srvx.DevHandler(dev, nil)
+	h := srvx.HandlerFunc(func(ctx context.Context, req packet.Request) (packet.Response, error) {
+		if b := req.Bytes(); b[0] == 0 && b[1] == 7 {
+			started <- struct{}{}
+			<-release
+		}
+		return devH.Handle(ctx, req)
+	})
+	s := &server.Server{OnErrorFunc: func(error) {}}
+	l1 := srvx.NewMemListener()
+	ctx1, cancel1 := context.WithCancel(context.Background())
+	ret1 := make(chan error, 1)
+	go func() { ret1 <- s.Serve(ctx1, l1, h) }()
+	released := false
+	defer func() {
+		if !released {
+			close(release)
+		}
+		cancel1()
+	}()
+	a := mon.Attrs{"terminal": c.Terminal}
+	r.Eval(1)
+	r.Cover("terminal", c.Terminal)
+	cliA, rcA, err := l1.Dial(2 * time.Second)
+	if err != nil {
+		r.Inconclusive("restart: cannot connect: " + err.Error())
+		return
+	}
+	defer cliA.Close()
+	qA := specref.Req{FC: 3, Unit: 1, TID: 7, Addr: uint16(rng.Intn(60000)), Qty: uint16(1 + rng.Intn(20))}
+	wantA := simdev.New(uint64(c.Seed), "srv").Handle(qA).Encode(specref.TCP)
+	_ = cliA.SetWriteDeadline(time.Now().Add(2 * time.Second))
+	if _, err := cliA.Write(qA.Encode(specref.TCP)); err != nil {
+		r.Inconclusive("restart: write: " + err.Error())
+		return
+	}
+	select {
+	case <-started:
+	case <-time.After(3 * time.Second):
+		r.Inconclusive("restart: handler did not start")
+		return
+	}
+	cancel1()
+	select {
+	case <-ret1:
+	case <-time.After(3 * time.Second):
+		r.Violate(c, "serve-does-not-return", a, "restart: the first serve call had not returned 3 s after its context was cancelled")
+		return
+	}
+	// second serve call on the same Server
+	l2 := srvx.NewMemListener()
+	ctx2, cancel2 := context.WithCancel(context.Background())
+	defer cancel2()
+	ret2 := make(chan error, 1)
+	go func() { ret2 <- s.Serve(ctx2, l2, h) }()
+	cliB, _, err := l2.Dial(2 * time.Second)
+	if err != nil {
+		select {
+		case e := <-ret2:
+			r.Cover("restart", fmt.Sprintf("second serve call refused: %v", e)) // reuse not supported: nothing to check
+		default:
+			r.Cover("restart", "second serve call accepts nothing")
+		}
+		return
+	}
+	defer cliB.Close()
+	qB := specref.Req{FC: 3, Unit: 2, TID: 8, Addr: 5, Qty: 2}
+	_ = cliB.SetWriteDeadline(time.Now().Add(2 * time.Second))
+	_, _ = cliB.Write(qB.Encode(specref.TCP))
+	wantB := simdev.New(uint64(c.Seed), "srv").Handle(qB).Encode(specref.TCP)
+	if got, _ := srvx.ReadN(cliB, len(wantB), 2*time.Second); !bytes.Equal(got, wantB) {
+		r.Cover("restart", "second serve call does not answer")
+		return
+	}
+	r.Cover("restart", "second serve call answers")
+	gotA := make(chan []byte, 1)
+	go func() {
+		b, _ := srvx.ReadN(cliA, len(wantA), 4*time.Second)
+		gotA <- b
+	}()
+	var shutErr error
+	var shutRet int64
+	shutDone := make(chan struct{})
+	go func() {
+		sctx, sc := context.WithTimeout(context.Background(), 3*time.Second)
+		shutErr = s.Shutdown(sctx)
+		shutRet = l1.Clk.Tick()
+		sc()
+		close(shutDone)
+	}()
+	time.Sleep(time.Duration(20+rng.Intn(100)) * time.Millisecond)
+	close(release)
+	released = true
+	select {
+	case <-shutDone:
+	case <-time.After(6 * time.Second):
+		r.Violate(c, "shutdown-does-not-return", mon.Attrs{"restart": true}, "Shutdown after a restart did not return within 6 s")
+		return
+	}
+	replyA := <-gotA
+	r.Distinct(mon.Mix(0x7e57, uint64(c.Seed)))
+	if shutErr != nil {
+		r.Cover("shutdown", "restart-error:"+shutErr.Error())
+		return
+	}
+	written := 0
+	for _, e := range rcA.EventsCopy() {
+		if e.Op == "write" && e.Seq < shutRet {
+			written += e.N
+		}
+	}
+	r.Eval(1)
+	if written < len(wantA) {
+		r.Violate(c, "inflight-reply-after-shutdown-returned", a, fmt.Sprintf("restart: the handler of a request received during the first serve call was still running when Shutdown was called; Shutdown returned nil when %d of the %d reply bytes had been written (client finally got %d bytes)", written, len(wantA), len(replyA)))
+	} else if !bytes.Equal(replyA, wantA) {
+		r.Violate(c, "inflight-reply-lost", a, fmt.Sprintf("restart: reply written (%d bytes) but the client received % x, want % x", written, replyA, wantA))
+	}
+}
+
 func b2u(b bool) uint64 {
 	if b {
 		return 1
@@ -284,6 +414,10 @@ func run(ci any, r *mon.Rec) {
 	}
 	if c.Terminal == "shutdown-at-start" {
 		runAtStart(c, r, rng)
+		return
+	}
+	if c.Terminal == "restart" {
+		runRestart(c, r, rng)
 		return
 	}
 	sc := &scenario{c: c, r: r, l: srvx.NewMemListener(), hstart: map[uint16]int64{}, hend: map[uint16]int64{}, rejected: map[string]bool{}, inflight: make(chan struct{}, 64), hdone: make(chan struct{}, 64)}
